@@ -107,7 +107,11 @@ func VerifC03_DecoratorView() {
 	var objs []*verifC03Obj
 	var cache1, cache2 []*unstructured.Unstructured
 	for i := 0; i < n1; i++ {
-		x := &verifC03Obj{kind: verifC03Pick("kind"+verifC03Num[i], verifC03Kinds), name: "c" + verifC03Num[i]}
+		kinds := verifC03Kinds
+		if i == 2 {
+			kinds = verifC03Foreign + 1 // the third object (thorough tier): ownership and marker only
+		}
+		x := &verifC03Obj{kind: verifC03Pick("kind"+verifC03Num[i], kinds), name: "c" + verifC03Num[i]}
 		switch scope {
 		case 0:
 			x.ns = "ns"
